@@ -2,7 +2,7 @@
 import numpy as np
 from ..runner import Acc, HarnessError
 from ..refmodel import Fmt, MODES, quantize, quantize_code, add_fmt, mul_fmt, min_frac_bits, min_word, dy
-from ..common import Fxp, fx, codes, flags, fmt_of, reset_class_state, build
+from ..common import Fxp, fx, codes, flags, fmt_of, reset_class_state, build, AGED
 
 ID = 'C08'
 RULE = ('cases = (operand format pair, op, imposed-format mechanism [sizing policy | out | out_like | constant with op_input_size and '
@@ -175,10 +175,12 @@ def best_fmt(d):
     return Fmt(True, min_word([code], True, nf), nf), code
 
 
-def judge_const(acc, fxm, xs, c, side, op, input_size, policy, mode, part):
-    """x (array of all codes) op constant c (dyadic), or c op x for side='left'"""
+def judge_const(acc, fxm, xs, c, side, op, input_size, policy, mode, part, reconf=False):
+    """x (array of all codes) op constant c (dyadic), or c op x for side='left'.  reconf: the live operand first runs the same operation
+    with the same constant under ANOTHER configuration (modes, op_input_size, const_op_sizing), is then reconfigured by attribute
+    assignment, and the judged operation follows"""
     case = {'part': part, 'fx': list(fxm), 'xs': list(xs), 'const': list(c), 'side': side, 'op': op, 'input_size': input_size,
-            'policy': policy, 'mode': list(mode), '_sig': {'op': op, 'side': side, 'input_size': input_size, 'policy': policy}}
+            'policy': policy, 'mode': list(mode), 'reconf': reconf, '_sig': {'op': op, 'side': side, 'input_size': input_size, 'policy': policy}}
     cf = c[0] / float(1 << c[1])
     cv = int(cf) if c[1] == 0 else cf
     # constant -> fixed-point constant (reference rule)
@@ -205,7 +207,23 @@ def judge_const(acc, fxm, xs, c, side, op, input_size, policy, mode, part):
     acc.dim('const_policy', policy)
     acc.dim('side', side)
     try:
-        x = mk_operand(fxm, xs, (len(xs),), mode, op_input_size=input_size, const_op_sizing=policy)
+        if reconf:
+            # one deviation at a time: the earlier configuration differs in exactly the named respect
+            om = other_mode(mode) if reconf == 'modes' else mode
+            x = mk_operand(fxm, xs, (len(xs),), om,
+                           op_input_size=('best' if input_size == 'same' else 'same') if reconf == 'input_size' else input_size,
+                           const_op_sizing=('same' if policy != 'same' else 'optimal') if reconf == 'policy' else policy)
+            for _ in range(2):
+                if side == 'right':
+                    x + cv if op == '+' else (x - cv if op == '-' else x * cv)
+                else:
+                    cv + x if op == '+' else (cv - x if op == '-' else cv * x)
+            x.config.rounding, x.config.overflow = mode
+            x.config.op_input_size = input_size
+            x.config.const_op_sizing = policy
+            acc.dim('history', 'op-reconfigure(%s)-op' % reconf)
+        else:
+            x = mk_operand(fxm, xs, (len(xs),), mode, op_input_size=input_size, const_op_sizing=policy)
         if side == 'right':
             z = x + cv if op == '+' else (x - cv if op == '-' else x * cv)
         else:
@@ -284,6 +302,8 @@ def bounds(tier, seed):
             'P3_constants': '%d dyadic constants k/2^j on either side x op_input_size {same,best} x const_op_sizing {optimal,same,largest,smallest} x '
                             'all codes of every grid format x 3 ops x %d modes' % (len(CONSTS), 3 if tier == 'quick' else 10),
             'P4_unary': '- + abs on every code of all formats n_word<=8, n_frac in 0..n_word, whose result is representable',
+            'P6_far_targets': 'operand formats n_word in {4,8,12,16,24}: boundary code pairs x 3 ops into signed targets of 12/31/52 bits whose n_frac is '
+                              'the exact result\'s + {-40,-20,-9,9,11,17,25,33,41,47} x out / op_out_like / numpy out',
             'P5_boundary': 'formats n_word in {6,8,12} x n_frac {0,mid,max}: boundary code pairs x 3 ops x 3 policies x raw/repr x 4 modes',
             'seed': seed}
 
@@ -301,6 +321,8 @@ def shards(tier, seed):
         out.append({'part': 'P4', 'nw': nw})
     for nw in (6, 8, 12):
         out.append({'part': 'P5', 'nw': nw})
+    for nw in (4, 8, 12, 16, 24):
+        out.append({'part': 'P6', 'nw': nw})
     return out
 
 
@@ -320,6 +342,8 @@ def run_shard(sh):
                         for mode in MODES:
                             judge_sizing(acc, fxm, fym, xs, ys, op, policy, method, mode, 'P1')
                         judge_sizing(acc, fxm, fym, xs, ys, op, policy, method, ('around', 'saturate'), 'P1', 'value')
+                        how = AGED[(sh['i'] + g.index(fym) + OPS.index(op) + SIZINGS.index(policy)) % len(AGED)]
+                        judge_sizing(acc, fxm, fym, xs, ys, op, policy, method, ('floor', 'wrap') if method == 'raw' else ('around', 'saturate'), 'P1', how)
     elif part == 'P2':
         g = grid(2, sh['k'])
         tfmt = g[sh['ti']]
@@ -347,6 +371,8 @@ def run_shard(sh):
                         for policy in ('optimal', 'same', 'largest', 'smallest'):
                             for mode in modes:
                                 judge_const(acc, fxm, xs, c, side, op, isz, policy, mode, 'P3')
+                            for rc in ('modes', 'policy', 'input_size'):
+                                judge_const(acc, fxm, xs, c, side, op, isz, policy, modes[(c[0] + c[1]) % len(modes)], 'P3', rc)
     elif part == 'P4':
         nw = sh['nw']
         for s in (True, False):
@@ -364,7 +390,31 @@ def run_shard(sh):
                         for method in ('raw', 'repr'):
                             for mode in (('trunc', 'saturate'), ('around', 'wrap'), ('ceil', 'saturate'), ('floor', 'wrap')):
                                 judge_sizing(acc, fxm, fym, xs, ys, op, policy, method, mode, 'P5')
+    elif part == 'P6':
+        # imposed formats whose binary point is FAR from the exact result's (the result is shifted by many bits before it is stored)
+        nw = sh['nw']
+        fs = [Fmt(s, nw, nf) for s in (True, False) for nf in sorted({0, nw // 2})]
+        for fxm in fs:
+            xs = sorted({fxm.lo, fxm.lo + 1, 0, 1, fxm.hi - 1, fxm.hi, fxm.hi // 3} | ({-1} if fxm.signed else set()))
+            for fym in fs:
+                ys = sorted({fym.lo, 0, 1, fym.hi, fym.hi // 3} | ({-1} if fym.signed else set()))
+                for op in OPS:
+                    nfz = (fxm.n_frac + fym.n_frac) if op == '*' else max(fxm.n_frac, fym.n_frac)
+                    for d in FAR_SHIFTS:
+                        for tw in (12, 31, 52):
+                            tfmt = Fmt(True, tw, nfz + d)
+                            for tmode in TMODES[:2]:
+                                for kind, method in (('out', 'raw'), ('out', 'repr'), ('cfg_out_like', 'raw'), ('np_out', 'raw')):
+                                    if method == 'repr' and (abs(d) + 2 * nw > 50):
+                                        continue                # the repr method goes through doubles: only where those are exact
+                                    if tmode[1] == 'wrap' and 2 * nw + 1 + max(d, 0) >= 62:
+                                        acc.skipped += 1        # C01 defines wrap only for scaled magnitudes below 2^62
+                                        continue
+                                    judge_target(acc, fxm, fym, xs, ys, op, tfmt, kind, tmode, method, 'P6')
     return acc
+
+
+FAR_SHIFTS = (-40, -20, -9, 9, 11, 17, 25, 33, 41, 47)
 
 
 def replay(case):
@@ -376,7 +426,7 @@ def replay(case):
         return [v for v in acc.violations if v['case'].get('unary') == case['unary']]
     if 'const' in case:
         judge_const(acc, Fmt(*case['fx']), case['xs'], tuple(case['const']), case['side'], case['op'], case['input_size'], case['policy'],
-                    tuple(case['mode']), p)
+                    tuple(case['mode']), p, case.get('reconf', False))
     elif 'target' in case:
         judge_target(acc, Fmt(*case['fx']), Fmt(*case['fy']), case['xs'], case['ys'], case['op'], Fmt(*case['target']), case['kind'],
                      tuple(case['tmode']), case['method'], p)
